@@ -113,3 +113,6 @@ func VerifExtent(f *File) (dataEnd, metaEnd, metaTotal uint) {
 	a := &f.allocator
 	return uint(a.data.endMarker), uint(a.meta.endMarker), a.metaTotal
 }
+
+// VerifMetaAvail reports the number of free pages in the meta area.
+func VerifMetaAvail(f *File) uint { return f.allocator.meta.freelist.Avail() }
